@@ -194,6 +194,23 @@ where
     fn update_A(&mut self, A: &CscMatrix<T>) {
         _update_values(&mut self.ldlsolver, &mut self.KKT, &self.map.A, &A.nzval);
     }
+
+    #[cfg(feature = "verif-hooks")]
+    fn verif_c08_kkt_state(&self) -> Option<crate::verif_hooks::c08::KktState<T>> {
+        let (ldl_nzval, AtoPAPt) = match self.ldlsolver.verif_c08_permuted_copy() {
+            Some((v, a)) => (Some(v), Some(a)),
+            None => (None, None),
+        };
+        Some(crate::verif_hooks::c08::KktState {
+            kkt_nzval: self.KKT.nzval.clone(),
+            map_P: self.map.P.clone(),
+            map_A: self.map.A.clone(),
+            map_diag_full: self.map.diag_full.clone(),
+            map_Hsblocks: self.map.Hsblocks.clone(),
+            ldl_nzval,
+            AtoPAPt,
+        })
+    }
 }
 
 impl<T> DirectLDLKKTSolver<T>
